@@ -612,6 +612,134 @@ func (g *apuGenSt) sweepZeroPeriodCase(nr10, f int, retrig bool) {
 	g.p.c.class(fmt.Sprintf("sweep0/%02x/%03x/%v", nr10, f, retrig))
 }
 
+// channel 3 stopped (DAC off, length expiry, power cycle) after playing at a given frequency, triggered again while
+// stopped, stopped again: wave RAM read with the channel off must still hold what was written
+func (g *apuGenSt) waveStopRetriggerCase(f, how, play int) {
+	g.reset(0)
+	for i := 0; i < 16; i++ {
+		g.w(0xff30+i, (i*0x22+0x01)&0xff)
+	}
+	g.w(0xff1a, 0x80)
+	g.w(0xff1b, 0xfe) // two length clocks left (used by how == 1)
+	g.w(0xff1c, 0x20)
+	g.w(0xff1d, f&0xff)
+	v := 0x80 | f>>8
+	if how == 1 {
+		v |= 0x40
+	}
+	g.w(0xff1e, v)
+	g.c(play)
+	switch how {
+	case 0:
+		g.w(0xff1a, 0x00)
+	case 1:
+		g.c(3 * 4096)
+	default:
+		g.w(0xff26, 0x00)
+		g.w(0xff26, 0x80)
+	}
+	g.w(0xff1a, 0x80)
+	g.w(0xff1d, f&0xff)
+	g.w(0xff1e, 0x80|f>>8) // trigger of the stopped channel
+	g.c(1 + g.p.c.rng.intn(3))
+	g.w(0xff1a, 0x00)
+	for i := 0; i < 16; i++ {
+		g.r(0xff30 + i)
+	}
+	g.p.c.class(fmt.Sprintf("wavestop/%03x/%d", f, how))
+}
+
+// random sequences of NRx4 writes (length enable and trigger in every combination) at random phases with the counter
+// near its end values, then NR52 observed once per length clock until well past any possible expiry
+func (g *apuGenSt) nrx4SequenceCase(ch int) {
+	rng := g.p.c.rng
+	g.reset(3)
+	nrx1 := []int{0xff11, 0xff16, 0xff1b, 0xff20}[ch-1]
+	nrx2 := []int{0xff12, 0xff17, 0xff1a, 0xff21}[ch-1]
+	nrx4 := []int{0xff14, 0xff19, 0xff1e, 0xff23}[ch-1]
+	dac, full := 0xf0, 64
+	if ch == 3 {
+		dac, full = 0x80, 256
+	}
+	g.w(nrx2, dac)
+	g.w(nrx1, (full-[]int{1, 1, 2, 0, 3}[rng.intn(5)])&(full-1))
+	g.c(rng.intn(8192))
+	for k := 0; k < 3+rng.intn(4); k++ {
+		g.w(nrx4, []int{0x00, 0x40, 0x80, 0xc0}[rng.intn(4)])
+		g.r(0xff26)
+		switch rng.intn(3) {
+		case 0:
+			g.c(1 + rng.intn(3))
+		case 1:
+			g.c(2048 + rng.intn(4096))
+		default:
+			g.c(4096*(1+rng.intn(3)) + rng.intn(2048))
+		}
+	}
+	last := g.w(nrx4, []int{0x40, 0xc0}[rng.intn(2)])
+	n := 68
+	if ch == 3 {
+		n = 260
+	}
+	trace := last[1:2]
+	for j := 0; j < n; j++ {
+		o := g.c(4096)
+		trace += o[1:2]
+	}
+	g.p.c.class(fmt.Sprintf("nrx4seq/ch%d/%s", ch, trace))
+}
+
+// one NRx4 write that both triggers and flips the length-enable bit relative to the previous write, with the counter at
+// an end value, in the first and in the second half of a length period; then NR52 once per length clock
+func (g *apuGenSt) nrx4FlipCase(ch, variant, pre int) {
+	g.reset(3)
+	nrx1 := []int{0xff11, 0xff16, 0xff1b, 0xff20}[ch-1]
+	nrx2 := []int{0xff12, 0xff17, 0xff1a, 0xff21}[ch-1]
+	nrx4 := []int{0xff14, 0xff19, 0xff1e, 0xff23}[ch-1]
+	dac, full := 0xf0, 64
+	if ch == 3 {
+		dac, full = 0x80, 256
+	}
+	g.w(nrx2, dac)
+	switch variant {
+	case 0: // enable 0 -> 1 with trigger, one clock left
+		g.w(nrx1, full-1)
+		g.c(pre)
+		g.w(nrx4, 0xc0)
+	case 1: // enable 0 -> 1 with trigger, counter expired
+		g.w(nrx1, full-1)
+		g.c(2148)
+		g.w(nrx4, 0xc0)
+		g.c(2 * 4096)
+		g.w(nrx4, 0x00)
+		g.c(pre + 4096 - 2148%4096)
+		g.w(nrx4, 0xc0)
+	case 2: // enable 1 -> 0 with trigger, full counter; enabled again later
+		g.w(nrx1, 0x00)
+		g.w(nrx4, 0x40)
+		g.c(pre)
+		g.w(nrx4, 0x80)
+		g.c(4096 + 77)
+		g.w(nrx4, 0x40)
+	default: // enable 1 -> 0 with trigger after the counter expired; enabled again later
+		g.w(nrx1, full-1)
+		g.c(2148)
+		g.w(nrx4, 0xc0)
+		g.c(2 * 4096)
+		g.c(pre + 4096 - 2148%4096)
+		g.w(nrx4, 0x80)
+		g.c(4096 + 77)
+		g.w(nrx4, 0x40)
+	}
+	trace := ""
+	n := full + 4
+	for j := 0; j < n; j++ {
+		o := g.c(4096)
+		trace += o[1:2]
+	}
+	g.p.c.class(fmt.Sprintf("nrx4flip/ch%d/%d/%d/%s", ch, variant, pre, trace))
+}
+
 // directed retrigger test (C19): let the length counter expire, then trigger again with length
 // still enabled in the first (odd) or second (even) half of a frame-sequencer period: the expired
 // counter is reloaded with 64/256, less one in the first half; observed through the expiry time
@@ -883,6 +1011,11 @@ func apuGen(c *ctx) {
 			}
 			c.class(fmt.Sprintf("live-readback/%d", k))
 		}
+		for _, f := range []int{0x7ff, 0x7fe, 0x7fd, 0x6d6, 0x700} {
+			for how := 0; how < 3; how++ {
+				g.waveStopRetriggerCase(f, how, 37+c.rng.intn(400))
+			}
+		}
 		for _, nr10 := range []int{0x01, 0x09} {
 			g.sweepZeroPeriodCase(nr10, 0x400, false)
 			g.sweepZeroPeriodCase(nr10, 0x500, true)
@@ -945,6 +1078,23 @@ func apuGen(c *ctx) {
 			g.retriggerCase(ch, false)
 		}
 		c.notes["retrigger_cases"] = 8
+		nSeq := 6
+		if c.thorough() {
+			nSeq = 80
+		}
+		for ch := 1; ch <= 4; ch++ {
+			for k := 0; k < nSeq; k++ {
+				g.nrx4SequenceCase(ch)
+			}
+			for variant := 0; variant < 4; variant++ {
+				if ch == 3 && !c.thorough() && variant%2 == 1 {
+					continue
+				}
+				for _, pre := range []int{100, 2148} {
+					g.nrx4FlipCase(ch, variant, pre)
+				}
+			}
+		}
 		for _, nr10 := range []int{0x01, 0x02, 0x09, 0x07} {
 			g.sweepZeroPeriodCase(nr10, 0x400, false)
 			g.sweepZeroPeriodCase(nr10, 0x500, true)
